@@ -168,7 +168,7 @@ CLAIMS = {
          "harnesses behind cfg(kani)): is_root_value_transfer <=> BalanceTransfer from the caller of exactly tx.value to the CALL target (any "
          "recipient for CREATE); balance_before_entry inverts every forward-applied pair of balance entries; the per-account suffix lookup "
          "returns the entry of the first own transaction strictly after txid. mir2c -> CBMC again: the journal scan itself -- the real "
-         "ReserveJournalExt::delegated_debits_since with is_root_value_transfer and balance_before_entry inlined -- over ANY journal of <= 3 balance-relevant "
+         "ReserveJournalExt::delegated_debits_since with is_root_value_transfer and balance_before_entry inlined -- over ANY journal of <= 3 (thorough tier: 4) balance-relevant "
          "entries (transfer / self-destruct / balance change / other), any journal state of 3 accounts (present or not, code none / ordinary / EIP-7702 designator), "
          "any checkpoint and transaction (caller, value, CALL target or CREATE), hash-map iteration order chosen by the solver: exactly one candidate per delegated "
          "account with a surviving protected debit after the checkpoint (the single root value transfer excluded), final balance from the journal state, and "
